@@ -1694,6 +1694,26 @@ impl<'bump> String<'bump> {
             Unbounded => {}
         };
 
+        // Make room for the replacement up front. `splice` writes the new bytes
+        // in stages and grows the buffer in between; in an arena with an
+        // allocation limit a failed growth is an unwinding panic, and the bytes
+        // written up to that point could end in the middle of a character.
+        let len = self.len();
+        let start = match range.start_bound() {
+            Included(&n) => n,
+            Excluded(&n) => n.saturating_add(1),
+            Unbounded => 0,
+        };
+        let end = match range.end_bound() {
+            Included(&n) => n.saturating_add(1),
+            Excluded(&n) => n,
+            Unbounded => len,
+        };
+        if start <= end && end <= len {
+            self.vec
+                .reserve(replace_with.len().saturating_sub(end - start));
+        }
+
         unsafe { self.as_mut_vec() }.splice(range, replace_with.bytes());
     }
 }
